@@ -471,6 +471,33 @@ def oneshot_case(p, res):
                 bn = float(bler_none(xt, yt))
                 if bn != (1.0 if d else 0.0):
                     v("bler", "count", f"BLER(block=row)({x},{y}) = {bn}")
+    # the same pairs in every layout of L bits (real: (L,), (L,1), 0-d when L = 1; complex samples carrying two bits each: (L/2,), (1,L/2), (L/2,1) and
+    # 0-d for a single symbol): one-shot value = exact fraction = streaming value
+    if L <= 4:
+        for i, x in enumerate(vecs):
+            for j, y in enumerate(vecs):
+                d = sum(a != b for a, b in zip(x, y))
+                lays = [("real(L,)", X[i], X[j]), ("real(L,1)", X[i].reshape(L, 1), X[j].reshape(L, 1))]
+                if L == 1:
+                    lays.append(("real()", X[i].reshape(()), X[j].reshape(())))
+                if L % 2 == 0:
+                    cx = torch.complex(X[i][0::2], X[i][1::2])
+                    cy = torch.complex(X[j][0::2], X[j][1::2])
+                    lays += [("complex(L/2,)", cx, cy), ("complex(1,L/2)", cx.reshape(1, -1), cy.reshape(1, -1)), ("complex(L/2,1)", cx.reshape(-1, 1), cy.reshape(-1, 1))]
+                    if L == 2:
+                        lays.append(("complex()", cx.reshape(()), cy.reshape(())))
+                for lname, xa, ya in lays:
+                    try:
+                        one = float(BitErrorRate()(xa, ya))
+                        ms = BitErrorRate()
+                        ms.update(xa, ya)
+                        st_ = float(ms.compute())
+                    except Exception:  # noqa: BLE001
+                        res.rejected += 1
+                        continue
+                    res.ev(1, nontrivial=1 if d else 0, transitions=3)
+                    if not close(one, d, L) or not close(st_, d, L):
+                        v("ber", "count", f"{lname}: BER({x},{y}) one-shot {one}, streaming {st_}, exact {d}/{L}", {"x": x, "y": y, "layout": lname})
     # all pairs as one batch: reductions consistent
     if L <= 5:
         XX = X.repeat_interleave(len(vecs), dim=0)
